@@ -93,6 +93,8 @@ pub struct OpOut {
     pub ret: Ret,
     pub panic: Option<String>,
     pub inner_rets: Vec<(OpRef, Ret)>,
+    /// span ids learned at creation (SpanContext::from_span on the new handle: a pure read)
+    pub learned: Vec<(OpRef, u64)>,
 }
 
 impl Default for OpOut {
@@ -107,6 +109,7 @@ impl Default for OpOut {
             ret: Ret::None,
             panic: None,
             inner_rets: vec![],
+            learned: vec![],
         }
     }
 }
@@ -322,6 +325,13 @@ pub struct ThreadCtx {
     stack: Vec<LocalH>,
     pub shared: Arc<Shared>,
     pub inner_rets: Vec<(OpRef, Ret)>,
+    pub learned: Vec<(OpRef, u64)>,
+}
+
+fn learn(ctx: &mut ThreadCtx, op: OpRef, sp: &Span) {
+    if let Some(c) = SpanContext::from_span(sp) {
+        ctx.learned.push((op, c.span_id.0));
+    }
 }
 
 struct Rep {
@@ -481,6 +491,7 @@ pub fn exec_op(ctx: &mut ThreadCtx, idx: usize, op: OpRef, o: &Op, inner: &[Op])
             if *props > 0 {
                 sp = sp.with_properties(|| closure_body(cp, idx, op, *props, inner));
             }
+            learn(ctx, op, &sp);
             *slot_mut(&sh, *slot) = SlotV::Span(sp);
             Ret::None
         }
@@ -504,6 +515,7 @@ pub fn exec_op(ctx: &mut ThreadCtx, idx: usize, op: OpRef, o: &Op, inner: &[Op])
                 }
                 None => Span::noop(),
             };
+            learn(ctx, op, &sp);
             *slot_mut(&sh, *slot) = SlotV::Span(sp);
             Ret::None
         }
@@ -527,6 +539,7 @@ pub fn exec_op(ctx: &mut ThreadCtx, idx: usize, op: OpRef, o: &Op, inner: &[Op])
             if *props > 0 {
                 sp = sp.with_properties(|| closure_body(cp, idx, op, *props, inner));
             }
+            learn(ctx, op, &sp);
             *slot_mut(&sh, *slot) = SlotV::Span(sp);
             Ret::None
         }
@@ -535,6 +548,7 @@ pub fn exec_op(ctx: &mut ThreadCtx, idx: usize, op: OpRef, o: &Op, inner: &[Op])
             if *props > 0 {
                 sp = sp.with_properties(|| closure_body(cp, idx, op, *props, inner));
             }
+            learn(ctx, op, &sp);
             *slot_mut(&sh, *slot) = SlotV::Span(sp);
             Ret::None
         }
@@ -648,6 +662,35 @@ pub fn exec_op(ctx: &mut ThreadCtx, idx: usize, op: OpRef, o: &Op, inner: &[Op])
     }
 }
 
+pub fn exec_async_impl(ctx: &mut ThreadCtx, idx: usize, op: OpRef, o: &Op, inner: &[Op]) -> Ret {
+    let sh = ctx.shared.clone();
+    match o {
+        Op::NewTask { task, wrap, span } => {
+            let sp = match span {
+                Some(s) => match std::mem::replace(slot_mut(&sh, *s), SlotV::Empty) {
+                    SlotV::Span(sp) => Some(sp),
+                    _ => None,
+                },
+                None => None,
+            };
+            let tb = crate::tasks::new_task(&sh.case, op, wrap, sp);
+            *slot_mut(&sh, *task) = SlotV::Task(tb);
+            Ret::None
+        }
+        Op::Poll { task, kind, ready } => match slot_mut(&sh, *task) {
+            SlotV::Task(tb) => crate::tasks::poll_task(tb, ctx, idx, *kind, *ready, inner),
+            _ => panic!("harness: no task in slot"),
+        },
+        Op::DropTask { task } => {
+            if let SlotV::Task(tb) = slot_mut(&sh, *task) {
+                crate::tasks::drop_task(tb);
+            }
+            Ret::None
+        }
+        _ => panic!("harness: op not supported yet: {:?}", o),
+    }
+}
+
 pub fn thread_main(sh: Arc<Shared>, t: u8) {
     let tid = sim::my_tid();
     {
@@ -662,6 +705,7 @@ pub fn thread_main(sh: Arc<Shared>, t: u8) {
         stack: vec![],
         shared: sh.clone(),
         inner_rets: vec![],
+        learned: vec![],
     };
     let n = sh.case.ops.len();
     for i in 0..n {
@@ -680,6 +724,7 @@ pub fn thread_main(sh: Arc<Shared>, t: u8) {
             (st.step as u32, st.clock)
         };
         ctx.inner_rets.clear();
+        ctx.learned.clear();
         let r = std::panic::catch_unwind(std::panic::AssertUnwindSafe(|| exec_op(&mut ctx, i, opref, &rec.op, &rec.inner)));
         let (s1, t1) = {
             let mut st = sim::lock_st();
@@ -711,6 +756,7 @@ pub fn thread_main(sh: Arc<Shared>, t: u8) {
                 ret,
                 panic,
                 inner_rets: std::mem::take(&mut ctx.inner_rets),
+                learned: std::mem::take(&mut ctx.learned),
             };
         }
         sim::op_done(i);
